@@ -145,6 +145,25 @@ Proof. intros Hk k. pose proof (count_ge_le_length cum frac) as Hc.
   set (c := count_ge OR cum frac) in *. subst k.
   destruct (Z.gtb_spec (Z.of_nat (length cum) - Z.of_nat c + 1) (Z.of_nat (length cum))); cbn [fst]; lia. Qed.
 
+(* once the request is reached, the number kept does not depend on how many further modes
+   were precomputed (every further cumulative fraction also reaches the request) *)
+Lemma count_ge_app (l e : list R) x : Forall (fun c => x <= c) e ->
+  count_ge OR (l ++ e) x = (count_ge OR l x + length e)%nat.
+Proof. intros He. unfold count_ge. rewrite filter_app, app_length. f_equal.
+  induction He as [|c r Hc Hr IH]; [reflexivity|]. cbn [filter fleb OR length].
+  replace (Rleb x c) with true by (symmetry; apply Rleb_true; exact Hc). cbn [length]. f_equal. exact IH. Qed.
+
+Lemma threshold_independent_of_precomputed (cum extra : list R) (frac : R) :
+  Forall (fun c => frac <= c) extra -> (1 <= count_ge OR cum frac)%nat ->
+  dec_n_modes_clipped OR (Z.of_nat (length (cum ++ extra))) (cum ++ extra) frac = dec_n_modes_clipped OR (Z.of_nat (length cum)) cum frac /\
+  svd_n_modes_clipped OR (Z.of_nat (length (cum ++ extra))) (cum ++ extra) frac = svd_n_modes_clipped OR (Z.of_nat (length cum)) cum frac.
+Proof. intros He Hc. pose proof (count_ge_le_length cum frac) as Hl.
+  unfold dec_n_modes_clipped, dec_n_modes_required, svd_n_modes_clipped, svd_n_modes_required.
+  rewrite (count_ge_app cum extra frac He), app_length. set (c := count_ge OR cum frac) in *.
+  destruct (Z.gtb_spec (Z.of_nat (length cum + length extra) - Z.of_nat (c + length extra) + 1) (Z.of_nat (length cum + length extra)));
+  destruct (Z.gtb_spec (Z.of_nat (length cum) - Z.of_nat c + 1) (Z.of_nat (length cum))); try lia.
+  split; f_equal; lia. Qed.
+
 (* refuted variant: counting the cumulative fractions that *exceed* the request (strict
    comparison) keeps one mode too many when the request is met exactly *)
 Definition n_modes_required_strict (npre : Z) (cum : list R) (frac : R) : Z :=
